@@ -14,6 +14,11 @@ func ReadRequest(r io.Reader) (apiVersion int16, correlationID int32, clientID s
 		return
 	}
 
+	if size < 0 {
+		err = fmt.Errorf("invalid negative frame size: %d", size)
+		return
+	}
+
 	d.remain = int(size)
 	apiKey := ApiKey(d.readInt16())
 	apiVersion = d.readInt16()
@@ -48,13 +53,16 @@ func ReadRequest(r io.Reader) (apiVersion int16, correlationID int32, clientID s
 
 	if req.flexible {
 		// In the flexible case, there's a tag buffer at the end of the request header
-		taggedCount := int(d.readUnsignedVarInt())
+		taggedCount := toLength(d.readUnsignedVarInt())
+		if d.lengthOutOfBounds(taggedCount) {
+			taggedCount = 0
+		}
 		for i := 0; i < taggedCount; i++ {
 			d.readUnsignedVarInt() // tagID
 			size := d.readUnsignedVarInt()
 
 			// Just throw away the values for now
-			d.read(int(size))
+			d.read(toLength(size))
 		}
 	}
 
